@@ -44,7 +44,9 @@ UNREF_NAME = hashlib.sha256(UNREF).hexdigest() + ".txt"
 
 
 def cat_subsets():
-    return st.lists(st.sampled_from(sorted(CATEGORIES)), unique=True, max_size=4).map(sorted)
+    from .c05 import flag_sets
+
+    return flag_sets()
 
 
 @st.composite
